@@ -44,7 +44,7 @@ SPECS = {
     'C11': dict(level='translation_validation', engines=['WIT', 'GEN'], rules=['G-ASSERT', 'G-TYPEINFO', 'G-UNINIT', 'W-C11'],
                 stats=['assert_types'],
                 what='compile-fail witnesses for perturbed size / align / may-be-uninit on non-Copy, each with a compiling twin; every field type has a size and an alignment const assertion'),
-    'C12': dict(level='other', engines=['SRC'], rules=['B-'],
+    'C12': dict(level='other', engines=['SRC', 'GEN'], rules=['B-', 'G-HISTORY'],
                 what='ids come from the length of an append-only vector; rejected requests mutate nothing; variants.push is control-dependent on pending changes; build() dominated by both emptiness checks; each strategy lists each added id once'),
     'C13': dict(level='translation_validation', engines=['GEN', 'SRC'], rules=['G-PANIC', 'G-COMPILES', 'S-SENTINEL'],
                 stats=[],
